@@ -305,3 +305,25 @@ pub proof fn lemma_empty_first(s: Seq<u8>)
 {
     assert(Seq::<u8>::empty() + s =~= s);
 }
+
+// ---- System::new: where the encryptor of a running server comes from ----------------------------------------------------------
+pub fn arc_new<T>(x: T) -> (r: T) ensures r == x, { x }
+// R9 panic-as-divergence: the value if there is one; otherwise the call does not return (the server refuses to start)
+pub trait UnwrapOrDiverge<T> { fn unwrap_or_diverge(self) -> T; }
+impl<T, E> UnwrapOrDiverge<T> for Result<T, E> {
+    #[verifier::external_body]
+    fn unwrap_or_diverge(self) -> (r: T) ensures self matches Ok(v) && v == r { unimplemented!() }
+}
+// the key a base64 text stands for (None: not base64, or not 32 bytes)
+pub uninterp spec fn key_from_text(t: String) -> Option<Key>;
+impl Aes256GcmEncryptor {
+    // sdk/src/utils/crypto.rs: decodes the text, builds the cipher from exactly those 32 bytes; Err otherwise (not extracted: base64 crate)
+    #[verifier::external_body]
+    pub fn from_base64_key(key: &String) -> (r: Result<Aes256GcmEncryptor, IggyError>)
+        ensures match r { Ok(e) => key_from_text(*key) == Some(e.cipher.key()), Err(_) => key_from_text(*key) is None },
+    { unimplemented!() }
+}
+
+// R11 (slice of one loop iteration): what one iteration of the load loop yields — the entry to push, or (rule R11-slice-break,
+// inert on today's text: the sliced region has no `break`) the decision to stop loading and return what was read so far with Ok
+pub enum LoadStep { Entry(StateEntry), Break }
